@@ -327,7 +327,27 @@ def strategy(drv="full"):
     })
 
 
+ENUM_ALPHA = [["peer_send", 1, 5], ["peer_send", 5, 32], ["peer_send", 0, 1], ["listen", True], ["listen", False],
+              ["send", 4, "listening", False], ["send", 4, "absent", False], ["send", 3, "ackpl", False], ["fill_tx", 3, 2],
+              ["load_ack", 2, 1], ["read"], ["clear", True, False, False], ["clear", False, True, True], ["flush_rx"], ["flush_tx"],
+              ["irqcfg", False, True, True]]
+ENUM_TAIL = [["update"], ["available"], ["any"], ["fifo", False, None], ["fifo", True, None], ["read"], ["update"], ["last_tx_arc"]]
+
+
+def _enum(depth, drv="full"):
+    """the radio starts listening; every word of `depth` traffic / mutator ops over ENUM_ALPHA in every payload mode,
+    followed by the accessor tail (every accessor is also judged after each op of the word by the executor)"""
+    def gen():
+        import itertools
+        modes = ["dyn", "static"] + ([] if drv == "lite" else ["mixed"])
+        for mode in modes:
+            for w in itertools.product(ENUM_ALPHA, repeat=depth):
+                yield {"drv": drv, "mode": mode, "lens": [5, 7, 9, 11, 13, 32], "dynmask": 0x2A,
+                       "ops": [["listen", True]] + [list(o) for o in w] + ENUM_TAIL}
+    return gen
+
+
 def parts(tier):
     if tier == "quick":
-        return [Part("generated", "gen", strategy, n=4000)]
-    return [Part("generated", "gen", strategy, n=120000)]
+        return [Part("enum-words-depth3", "enum", _enum(3), exhaustive=True), Part("generated", "gen", strategy, n=4000)]
+    return [Part("enum-words-depth4", "enum", _enum(4), exhaustive=True), Part("generated", "gen", strategy, n=120000)]
